@@ -236,6 +236,13 @@ func init() {
 		fr.w.schedStart(int(fr.w.concInt(args[0])), int(fr.w.concInt(args[1])), int(fr.w.concInt(args[2])))
 		return nil
 	})
+	reg(zz+"RaceMonitor", func(fr *frame, args []Value) Value {
+		if fr.w.sched == nil {
+			panic(engineError{"zz.RaceMonitor needs zz.Concurrent first"})
+		}
+		fr.w.raceStart()
+		return nil
+	})
 	reg(zz+"Yield", func(fr *frame, args []Value) Value {
 		if fr.w.sched != nil {
 			fr.w.yieldPoint(nil, "yield")
@@ -510,10 +517,12 @@ func init() {
 
 	atomicLoad := func(fr *frame, a []Value) Value {
 		fr.w.visible(fr, "atomic.Load")
+		fr.w.atomicEdge(a[0])
 		return fr.load(nil, a[0], 0)
 	}
 	atomicStore := func(fr *frame, a []Value) Value {
 		fr.w.visible(fr, "atomic.Store")
+		fr.w.atomicEdge(a[0])
 		fr.storeTo(nil, a[0], a[1], 0)
 		return nil
 	}
@@ -529,6 +538,7 @@ func init() {
 		bt := map[string]types.Type{"Int32": types.Typ[types.Int32], "Int64": types.Typ[types.Int64], "Uint32": types.Typ[types.Uint32], "Uint64": types.Typ[types.Uint64]}[t.n]
 		reg("sync/atomic.Add"+t.n, func(fr *frame, a []Value) Value {
 			fr.w.visible(fr, "atomic.Add")
+			fr.w.atomicEdge(a[0])
 			old := fr.load(nil, a[0], 0)
 			nv := fr.binop(tokenADD, bt, old, a[1], 0)
 			fr.storeTo(nil, a[0], nv, 0)
@@ -537,6 +547,7 @@ func init() {
 		})
 		reg("sync/atomic.CompareAndSwap"+t.n, func(fr *frame, a []Value) Value {
 			fr.w.visible(fr, "atomic.CAS")
+			fr.w.atomicEdge(a[0])
 			old := fr.load(nil, a[0], 0)
 			eq := fr.w.eqVal(old, a[1])
 			if fr.w.path.Branch(eq) {
@@ -547,6 +558,7 @@ func init() {
 		})
 		reg("sync/atomic.Swap"+t.n, func(fr *frame, a []Value) Value {
 			fr.w.visible(fr, "atomic.Swap")
+			fr.w.atomicEdge(a[0])
 			old := fr.load(nil, a[0], 0)
 			fr.storeTo(nil, a[0], a[1], 0)
 			return old
@@ -560,16 +572,19 @@ func init() {
 		}
 		reg("(*sync/atomic."+tn+").Load", func(fr *frame, a []Value) Value {
 			fr.w.visible(fr, "atomic.Load")
+			fr.w.atomicEdge(a[0])
 			return *vf(a[0])
 		})
 		reg("(*sync/atomic."+tn+").Store", func(fr *frame, a []Value) Value {
 			fr.w.visible(fr, "atomic.Store")
+			fr.w.atomicEdge(a[0])
 			fr.w.store(vf(a[0]), a[1])
 			return nil
 		})
 		if bt != nil {
 			reg("(*sync/atomic."+tn+").Add", func(fr *frame, a []Value) Value {
 				fr.w.visible(fr, "atomic.Add")
+				fr.w.atomicEdge(a[0])
 				nv := fr.binop(tokenADD, bt, *vf(a[0]), a[1], 0)
 				fr.w.store(vf(a[0]), nv)
 				return nv
@@ -583,6 +598,7 @@ func init() {
 	typedAtomic("Bool", nil)
 	reg("(*sync/atomic.Value).Load", func(fr *frame, a []Value) Value {
 		fr.w.visible(fr, "atomic.Load")
+		fr.w.atomicEdge(a[0])
 		v := *structField(a[0], 0)
 		if v == nil {
 			return Iface{}
@@ -591,6 +607,7 @@ func init() {
 	})
 	reg("(*sync/atomic.Value).Store", func(fr *frame, a []Value) Value {
 		fr.w.visible(fr, "atomic.Store")
+		fr.w.atomicEdge(a[0])
 		fr.w.store(structField(a[0], 0), a[1])
 		return nil
 	})
